@@ -437,26 +437,21 @@ theorem getAll_filter {α} (l : List α) (p : α → Bool) : ∀ (as : List Nat)
         exact ⟨ih1, ih2.cons a⟩
     · cases h
 
+/-- the repaired `custom_maze_filter` is a copying step like the registered maze filters -/
 theorem customFilter_spec {h : Heap} {d : Nat} {fname : String} {p : Maze → Bool} {kw : List (String × PyLit)}
     {h' : Heap} {d' : Nat} (hs : customFilter h d fname p kw = .ok (h', d')) :
-    ∃ ds c ms keep, h.view d = some (ds, c, ms) ∧ allArgs c.applied = true ∧ d' = h.dsets.length ∧
-      keep.Sublist ds.mazes ∧ getAll h.mazes keep = some (ms.filter p) ∧
-      h' = { cfgs := h.cfgs ++ [{ c with applied := c.applied ++ [{ name := "__custom__:" ++ fname, args := some [], kwargs := kw }],
-                                         nMazes := keep.length }],
-             mazes := h.mazes,
-             dsets := h.dsets ++ [{ cfg := h.cfgs.length, mazes := keep, gmc := none }] } := by
+    ∃ ds c ms, h.view d = some (ds, c, ms) ∧ allArgs c.applied = true ∧
+      Copied h c h' d' (ms.filter p) none { name := "__custom__:" ++ fname, args := some [], kwargs := kw } := by
   unfold customFilter at hs
   split at hs
   · cases hs
   · next ds c ms hv =>
     split at hs
-    · next ha =>
-      obtain ⟨_, _, _, hms⟩ := view_cfgOf hv
-      obtain ⟨g1, g2⟩ := getAll_filter h.mazes p ds.mazes ms hms
-      simp [finish, appendFilter, updateSelfConfig] at hs
-      obtain ⟨rfl, rfl⟩ := hs
-      exact ⟨ds, c, ms, _, hv, ha, rfl, g2, g1, by simp⟩
     · cases hs
+    · next h1 nd hc =>
+      rw [copyNew_finish _ hc] at hs
+      simp only [Except.ok.injEq, Prod.mk.injEq] at hs
+      exact ⟨ds, c, ms, hv, (copyNew_ok hc).1, hs.1.symm, hs.2.symm⟩
 
 /-! ## `collect_generation_meta` -/
 
@@ -636,9 +631,10 @@ theorem step_provenance {np : Percentile} {h : Heap} {d : Nat} {op : Op} {h' : H
         by rw [e1]; exact hds, rfl, rfl, rfl⟩
       simp only [cfgOf, e1, hds, e3, List.getElem?_set_self (idx_lt_of_getElem? hcc)]
   | custom fname p kw =>
-    obtain ⟨ds, c, ms, keep, hv, _, rfl, _, _, rfl⟩ := customFilter_spec hs
-    exact ⟨c, { c with applied := c.applied ++ [{ name := "__custom__:" ++ fname, args := some [], kwargs := kw }], nMazes := keep.length },
-      { cfg := h.cfgs.length, mazes := keep, gmc := none }, (view_cfgOf hv).1, by simp [cfgOf], by simp, rfl, rfl, rfl⟩
+    obtain ⟨ds, c, ms, hv, _, rfl, rfl⟩ := customFilter_spec hs
+    exact ⟨c, { c with applied := c.applied ++ [{ name := "__custom__:" ++ fname, args := some [], kwargs := kw }], nMazes := (ms.filter p).length },
+      { cfg := h.cfgs.length, mazes := List.range' h.mazes.length (ms.filter p).length, gmc := none },
+      (view_cfgOf hv).1, by simp [cfgOf, outHeap], by simp [outHeap], rfl, rfl, by simp⟩
 
 /-! ## the config-driven entry point -/
 
